@@ -353,7 +353,20 @@ pub fn run_trace(args: &[String]) {
                 std::thread::sleep(Duration::from_micros(rng.below(400) as u64));
             }
         }
-        drop(pool);
+        // dropping the pool joins its workers; do it where a pool that never shuts down cannot take the whole run with it
+        let dropper = std::thread::spawn(move || drop(pool));
+        let t0 = Instant::now();
+        while !dropper.is_finished() && t0.elapsed() < Duration::from_secs(10) {
+            std::thread::sleep(Duration::from_millis(1));
+        }
+        if !dropper.is_finished() {
+            emit(&json!({"fail": true, "case": r, "variant": "free-running", "sig": "pool shutdown does not return",
+                "detail": format!("dropping the pool (initial {}, max {}, {} short jobs, all finished) did not return within 10 s: a worker does not terminate", initial, max, njobs)}));
+            let _ = f.flush();
+            emit(&json!({"summary": true, "cases": runs, "executions": r, "events": total, "failures": 1}));
+            std::process::exit(0);
+        }
+        let _ = dropper.join();
         verif::set_probe(None);
         let _ = writeln!(f, "{}", json!({"ev": "reset", "initial": initial, "max": max, "njobs": njobs, "run": r}));
         for (ev, who, a, b) in ctl.take_log() {
